@@ -1244,14 +1244,13 @@ theorem rd_discoSentence : ∀ (ws : List Str) (tail : List (Str × LexClass)) (
     discoSentence (rdSentToks ws ++ tail) pos acc =
       discoSentence tail (pos + ws.length) (((List.range' pos ws.length).zip ws).reverse ++ acc)
   | [], tail, pos, acc, _ => by simp [rdSentToks]
-  | [w], tail, pos, acc, hw => by
-    obtain ⟨h1, h2⟩ := rd_tokStr_ne w (hw w (by simp))
-    simp [rdSentToks, discoSentence, h1, h2, List.range'_succ]
+  | [w], tail, pos, acc, _ => by
+    simp [rdSentToks, discoSentence, List.range'_succ]
   | w :: v :: r, tail, pos, acc, hw => by
-    obtain ⟨h1, h2⟩ := rd_tokStr_ne w (hw w (by simp))
     have ih := rd_discoSentence (v :: r) tail (pos + 1) ((pos, w) :: acc) (fun w' hw' => hw w' (by simp [hw']))
-    simp only [rdSentToks, List.cons_append, discoSentence, h1, h2, Bool.false_eq_true, if_false]
-    simp only [show (([' '] : Str) == [' ']) = true from by decide, if_true]
+    simp only [rdSentToks, List.cons_append, discoSentence]
+    simp only [show (LexClass.token == LexClass.ws) = false from rfl, show (LexClass.ws == LexClass.ws) = true from rfl,
+      show (([' '] : Str).contains '\n') = false from by decide, Bool.false_eq_true, if_false, if_true]
     rw [ih]
     simp [List.range'_succ, Nat.add_assoc, Nat.add_comm 1]
 
@@ -1388,10 +1387,10 @@ theorem rd_tail (R : Str) (hR : R = [] ∨ ∃ R', R = '(' :: R') :
     simp
   · have h : bracketLex ('\n' :: '(' :: R') = (['\n'], .ws) :: bracketLex ('(' :: R') :=
       lex_wsrun_append ['\n'] '(' R' (by simp) (by simp; decide) (by decide)
-    refine ⟨fun pos => [(pos, ['\n'])], by rw [h]; simp, ?_⟩
+    refine ⟨fun _ => [], by rw [h]; simp, ?_⟩
     intro pos acc
     rw [h, discoSentence]
-    simp only [show ((['\n'] : Str) == [' ']) = false from by decide, show ((['\n'] : Str) == ['\n']) = true from by decide]
+    simp only [show (LexClass.ws == LexClass.ws) = true from rfl, show ((['\n'] : Str).contains '\n') = true from by decide, if_true]
     simp
 
 theorem rd_words_tok (t : Tree) (hw : ∀ n f, leaf n f ∈ subtrees t → ∃ w, f.word = some w ∧ TokStr w) :
@@ -1475,7 +1474,7 @@ theorem rd_line (o : InOpts) (ho : RdOpts o) (t : Tree) (hwf : WF t = true) (hok
     rw [hsds, rd_setWords_asRead _ _ hW]
     exact TT.Lemmas.Read.beq_refl _
   · rw [brLoop, step_rrb_yield o _ _ (Or.inr rfl) _ rfl rfl ho.rp]
-    simp only [ho.disco, if_true, show ((['\t'] : Str) == ['\n']) = false from by decide, Bool.false_eq_true, if_false]
+    simp only [ho.disco, if_true, show (LexClass.ws == LexClass.ws && (['\t'] : Str).contains '\n') = false from by decide, Bool.false_eq_true, if_false]
     rw [rd_discoSentence _ _ _ _ hwtok, hT]
     simp only [List.append_nil, List.reverse_reverse, ho.ro, QNode.toTree]
     rw [show discoApply false ((List.range' 1 (rdWords (node f ks)).length).zip (rdWords (node f ks)) ++
